@@ -275,3 +275,82 @@ def scan_sign_tests(repo, shorts):
                 for _line, test, it in strict_zero_tests(m.node):
                     hits.append((f"{short}::{ci.name}.{m.name} [{test}]", test, it))
     return n, hits
+
+
+# --------------------------------------------------------------------------- truth tests of element / insertion ids
+_ID_ATTRS = ("element_id", "insertion_id", "anchor_id", "subvar_id")
+
+
+def _is_id_source(e: ast.AST) -> bool:
+    if isinstance(e, ast.Call) and isinstance(e.func, ast.Attribute) and e.func.attr == "translate_element_id":
+        return True
+    if isinstance(e, ast.Attribute) and e.attr in _ID_ATTRS:
+        return True
+    return False
+
+
+def id_truth_tests(fn: ast.AST) -> List[Tuple[int, str, str]]:
+    """An element id may be 0 (and an alias may be the empty string): `if not element_id`, `x if shimmed_id else ..`
+    treats a VALID id as absent.  Absence is `is None`."""
+    id_names: Set[str] = set()
+    changed = True
+    while changed:
+        changed = False
+        for n in ast.walk(fn):
+            if isinstance(n, ast.Assign) and len(n.targets) == 1 and isinstance(n.targets[0], ast.Name):
+                v = n.value
+                if (_is_id_source(v) or (isinstance(v, ast.Name) and v.id in id_names)) and n.targets[0].id not in id_names:
+                    id_names.add(n.targets[0].id)
+                    changed = True
+
+    def is_id(e):
+        return _is_id_source(e) or (isinstance(e, ast.Name) and e.id in id_names)
+
+    out = []
+
+    def test(e, ctx):
+        while isinstance(e, ast.UnaryOp) and isinstance(e.op, ast.Not):
+            e = e.operand
+            ctx = "not"
+        if isinstance(e, ast.BoolOp):
+            for v in e.values:
+                test(v, "and/or operand")
+            return
+        if is_id(e):
+            out.append((getattr(e, "lineno", 0), ctx, u(e)))
+
+    for n in ast.walk(fn):
+        if isinstance(n, (ast.If, ast.While)):
+            test(n.test, "if")
+        elif isinstance(n, ast.IfExp):
+            test(n.test, "conditional expression")
+        elif isinstance(n, ast.comprehension):
+            for c in n.ifs:
+                test(c, "comprehension filter")
+        elif isinstance(n, ast.BoolOp):
+            for v in n.values[:-1]:
+                test(v, "and/or operand")
+    seen, uniq = set(), []
+    for x in out:
+        if (x[0], x[2]) not in seen:
+            seen.add((x[0], x[2]))
+            uniq.append(x)
+    return uniq
+
+
+ID_CONTROL = '''
+def _idx(self, dim, element_id):
+    shimmed_id = dim.translate_element_id(element_id)
+    if not shimmed_id:
+        raise ValueError("unknown")
+    return dim.element_ids.index(shimmed_id)
+
+def ok(self, dim):
+    i = dim.translate_element_id(self._order_spec.element_id)
+    return None if i is None else dim.element_ids.index(i)
+'''
+
+
+def id_self_check() -> int:
+    t = ast.parse(ID_CONTROL)
+    return sum(len(id_truth_tests(f)) for f in t.body)
